@@ -42,6 +42,10 @@ func TestReproC13RestartInContractClosed(t *testing.T) {
 	require.NoError(t, err)
 	boltLog := chanArbCtx.log.(*testArbLog).ArbitratorLog
 
+	// Buffer the state notifications so that a failing assertion cannot
+	// leave the arbitrator blocked in CommitState during cleanup.
+	chanArbCtx.log.(*testArbLog).newStates = make(chan ArbitratorState, 32)
+
 	const closeHeight = 100
 	commitHash := chainhash.Hash{0x01}
 	htlc := channeldb.HTLC{
